@@ -7,7 +7,8 @@ CASES = {'quick': 1500, 'thorough': 40000}
 GATES = {
     'quick': {'evaluations': 30000, 'getter_checks': 25000, 'setter_checks': 3000, 'chained_setter_checks': 3000, 'setter_nonempty_readback': 1500,
               'model_next_to_zero_width': 2000, 'classes_checked': 25, 'setter_crlf': 150,
-              'runs_split_by_zero_width_token': 100, 'post_write_neighbour_sweeps': 60},
+              'runs_split_by_zero_width_token': 100, 'post_write_neighbour_sweeps': 150,
+              'line_end_only_chain_steps': 500, 'post_write_sweeps_after_filling_an_empty_gap': 50},
     'thorough': {'evaluations': 800000, 'classes_checked': 30},
 }
 SPACINGS = ['', ' ', '\n', '\r\n', '  \t', '\n\n', ' \n\t \n', '\t', '    ', '\r\n\r\n', ' \r\n ', '\n ']
@@ -100,6 +101,8 @@ def run_case(col, r, idx):
         # half of the documents take all their assignments one after the other on the same tree (runs collapse, blocks of the store
         # shrink and merge); the others get a fresh parse per assignment
         chained = idx % 2 == 0
+        nl_chain = idx % 8 == 3     # all assignments on one tree, line ends only, on runs that hold line ends only or nothing (clear, then restore)
+        chained = chained or nl_chain
         ntrials = (12 if chained else 4) if col.tier == 'quick' else (30 if chained else 8)
         chain = []
         f = P.parse(text, models.File, auto_claim_comments=acl)
@@ -112,6 +115,20 @@ def run_case(col, r, idx):
             s = r.choice(SPACINGS + (['', '', ' '] if chained else []))
             lab, pos, full = labels(f.token_store)
             i, a, b, j = runs(lab, pos, m)
+            if nl_chain:
+                s = r.choice(['', '', '\n', '\n', '\n\n', '\r\n'])
+                for _ in range(40):
+                    cur = full[i:a] if side == 'before' else full[b:j]
+                    # not through a zero-width model (an end-of-line mark): its two sides are the same place in the text and only
+                    # the token-level oracle above says which of them a run belongs to
+                    if not cur.replace('\r\n', '').replace('\n', '') and (cur or s) and (trial % 2 == 0 or not cur) and (m.first_token.raw_text or m.last_token.raw_text):
+                        break
+                    path, m = r.choice(ms)
+                    side = r.choice(['before', 'after'])
+                    i, a, b, j = runs(lab, pos, m)
+                else:
+                    continue
+                col.count('line_end_only_chain_steps')
             exp = full[:i] + s + full[a:] if side == 'before' else full[:b] + s + full[j:]
             old = full[i:a] if side == 'before' else full[b:j]
             wit = {'text': text, 'path': path, 'side': side, 'assigned': s, 'old_run': old, 'acl': acl, 'lf': lf,
@@ -147,8 +164,9 @@ def run_case(col, r, idx):
             # differently), every model of the edited tree must see the spacing a fresh parse of the printed text sees.
             nl_only = lambda t: bool(t) and not t.replace('\r\n', '').replace('\n', '')
             lo, hi = (i, a) if side == 'before' else (b, j)
-            fresh = not chained or trial == 0     # earlier assignments on this tree may have put blanks where a lexer places them differently
-            if fresh and nl_only(s) and nl_only(old) and not (lo and full[lo - 1].isspace()) and not (hi < len(full) and full[hi].isspace()):
+            fresh = not chained or trial == 0 or nl_chain    # earlier assignments on this tree may have put blanks where a lexer places them differently
+            visible = bool(m.first_token.raw_text or m.last_token.raw_text)      # a zero-width model's two sides are one place in the text
+            if fresh and nl_only(s) and (nl_only(old) or not old and visible) and not (lo and full[lo - 1].isspace()) and not (hi < len(full) and full[hi].isspace()):
                 try:
                     f2 = P.parse(got, models.File, auto_claim_comments=acl)
                 except Exception:
@@ -158,6 +176,8 @@ def run_case(col, r, idx):
                     t1, t2 = targets(f), targets(f2)
                     if [p for p, _ in t1] == [p for p, _ in t2]:
                         col.count('post_write_neighbour_sweeps')
+                        if not old:
+                            col.count('post_write_sweeps_after_filling_an_empty_gap')
                         for (p1, m1), (_, m2) in zip(t1, t2):
                             for sd in ('spacing_before', 'spacing_after'):
                                 col.ev()
